@@ -99,6 +99,20 @@ Definition conserves_nd_b (v : nat) (w : list nat) : bool :=
     end
   else true.
 
+(** The general statement, NOT proved:
+
+      Theorem kmp_conserves_le2 : forall r r',
+        (forall p, count_occ pt_eq_dec r p <= 2) -> no equal cyclic neighbours in r ->
+        kmpDeduplicate r = Ok r' -> conserves (cedges r) (cedges r').
+
+    Proof idea (checked by the enumeration below, not formalised): with at most two visits the
+    segment S = ring[start..i) has pairwise distinct elements, so kmpTable is all zero and kmpSearch
+    is the naive exact search; all elements of S but the last have both their visits inside
+    S followed by its reflection, hence S occurs only at 0 (or also at 2 when L = 2 and the ring reads
+    a b a b) and its reverse only at L-1: (len matches, len reverseMatches) is (1,1) (nothing removed) or
+    (2,1) with L = 2 (the second "a b" removed: edges b->a and a->b cancel).  Missing: the naive-search
+    lemma, the occurrence-counting lemmas and the bookkeeping of the recorded ranges through
+    RemoveSequences. *)
 Lemma kmp_conserves_le2_eval : allw_ne_upto 5 9 (conserves_b 2) = true.
 Proof. vm_cast_no_check (eq_refl true). Qed.
 
